@@ -47,3 +47,27 @@ impl Drop for Scope {
         point(self.0);
     }
 }
+
+/// An installable callback for numeric observations: `(site, value)`.
+pub type ValueHook = Arc<dyn Fn(&'static str, u64) + Send + Sync>;
+
+static VALUE_HOOK: RwLock<Option<ValueHook>> = RwLock::new(None);
+
+/// Install `hook`; it is called with every value reported from then on.
+pub fn install_value(hook: ValueHook) {
+    *VALUE_HOOK.write().unwrap_or_else(|e| e.into_inner()) = Some(hook);
+}
+
+/// Remove the installed value callback, if any.
+pub fn uninstall_value() {
+    *VALUE_HOOK.write().unwrap_or_else(|e| e.into_inner()) = None;
+}
+
+/// Report that `site` computed `v`.
+#[inline]
+pub fn value(site: &'static str, v: u64) {
+    let hook = VALUE_HOOK.read().unwrap_or_else(|e| e.into_inner()).clone();
+    if let Some(hook) = hook {
+        hook(site, v);
+    }
+}
